@@ -158,3 +158,8 @@ def registry_weights(ctx):
             ok, why = scorelib.same_result(call(wbroad), base)
             if not ok:
                 ctx.violation(f"{name}: explicitly broadcast weights give a different result: {why}", desc, "same", why)
+
+
+def run_without_model(ctx):
+    """used when the extracted model does not build against the current source: relations between public calls only"""
+    recipe_weights(ctx)
